@@ -341,11 +341,24 @@ def _roundtrip(ctx, io, err, case, schema, data, tf, path):
     names = [f["name"] for f in schema["fields"]]
     kw = {}
     cseed = int(case.get("seed", case.get("k", 0)))
+    if cseed % 4 == 2 and kind_is_roundtrip(case):
+        # columns handed over as NumPy arrays / tuples instead of lists of Python scalars
+        conv = []
+        for (typ, g, tfill), col in zip(tf, data):
+            if typ == "integer" and any(abs(int(v)) >= 2**62 for v in col):
+                conv.append(tuple(col))
+            elif typ == "string":
+                conv.append(np.array(col, dtype=object) if cseed % 8 == 2 else tuple(col))
+            else:
+                conv.append(np.array(col))
+        data_in = conv
+    else:
+        data_in = data
     if cseed % 3 == 1:   # optional header comments (single lines) must not disturb schema or data
         pool = ["Data from Fig. 5", "---", "schema:", "delimiter: ';'", "#hash", "unit: m/s", "é✓ — ok", "", "  fields:", "- name: x", "'quoted'", "a: b: c"]
         kw["comments"] = [pool[(cseed // 3 + j) % len(pool)] for j in range(1 + cseed % 4)]
     try:
-        io.save_scsv(path, schema, data, **kw)
+        io.save_scsv(path, schema, data_in, **kw)
         with open(path, "rb") as f:
             raw = f.read()
         out = io.read_scsv(path)
@@ -410,6 +423,10 @@ def _roundtrip(ctx, io, err, case, schema, data, tf, path):
         os.unlink(path)
     except OSError:
         pass
+
+
+def kind_is_roundtrip(case):
+    return case.get("kind") in ("roundtrip", "catalogue")
 
 
 def _brief(schema):
